@@ -13,6 +13,10 @@ CHECKS = {
    text="Lean theorems: for every sequence of put/del the untrimmed bolt model keeps a strictly sorted key list whose entries carry their own round and Get answers exactly as a plain round->beacon map (refinement by induction over the op list); Last is the maximum; a cursor over a snapshot enumerates exactly the snapshot in strictly ascending order, Seek lands on the least round >= the argument and on the round itself when stored, every cursor read is an entry of the snapshot; trimmed store reads are labelled with the key found and the reconstructed previous signature is the stored signature of round-1 or the read fails; the memdb model stays sorted and within capacity for every op sequence, keeps an existing round, forgets only the smallest rounds, and its positional cursor only returns stored elements. Tied to the code by running the real boltdb (trimmed/untrimmed, with/without previous-required) and memdb stores against the model's executable definitions and against an independent sorted-map oracle.",
    note="Lean kernel + standard axioms; bbolt's snapshot/ordering semantics are modelled, not verified; PostgreSQL back-end not modelled; harness.",
    technique="Lean 4 proof (induction over op sequences, refinement to a map) + differential correspondence with real bbolt/memdb + sorted-map oracle"),
+ "C20": dict(engine="codec", design="§3 C20",
+   text="Lean theorems over a model that mirrors the Go conversion bodies statement by statement (Group/Identity/Node/Pair/Share/DistPublic TOML, Group/Identity/Info/Beacon protobuf, Info/Beacon JSON, DBState TOML; leaves such as hex, Duration text, point decoding and the C17 hashes abstract with their round-trip facts as the explicit hypothesis LeafOK, proved for real hex): for every well-formed value decode(encode v) succeeds and equals an explicitly given canonical form of v (group: id canonicalised, seed materialised, on the wire member identities carry the group scheme; DBState: genesis time in UTC, final group as on the group path) with the same C17 hash preimage; the type's own Equal agrees wherever it is pure (Group.Equal sorts a seedless receiver, DBState.Equals deep-compares the share: both corners proved as counterexamples and reproduced on the code); every out-of-range threshold and unknown scheme is rejected on the TOML path for all mirrors; on the protobuf path this is proved for the corrected variant and, for the code as it is, for packets with at least one node, with the node-less packet (threshold 1) as a proved counterexample = the listed known finding. A regenerated table of 12 (type, mirror, to, from) conversion pairs (fields read/written by each body, json tags, scheme switch, decoder guard chains) is proved by decide to cover every field modulo 9 commented, proved-necessary exemptions and is tied to the model's struct field lists. Tied to the code by driving the real TOML/JSON/hexjson/protobuf-wire/key-file/BoltStore encode-decode on reflection-populated values (every field non-zero) over all 5 schemes, groups of 1-10 nodes and all 12 DKG statuses, comparing field dumps with an independent python oracle and with the model, plus a malformed mirror stream.",
+   note="Lean kernel + standard axioms; TOML/JSON/protobuf/bbolt libraries, kyber encodings, time.Duration text and net.SplitHostPort are modelled as abstract leaves or trusted (sampled by every run); go2lean mirror extractor is syntactic (sets of fields touched, not data flow); harness error-class table.",
+   technique="Lean 4 proof (structural, list induction, omega for the 32/64-bit conversions) + regenerated field-coverage table proved by decide + differential correspondence on reflection-populated values + malformed-stream oracle"),
  "C17": dict(engine="hash", design="§3 C17",
    text="Lean theorems over the byte-exact preimages of Info.Hash and Group.Hash (layouts regenerated from the source and tied by rfl): determinism incl. id canonicalisation, every single-field change (period, genesis, public key, seed, id; member key/index, threshold, genesis, transition incl. 0<->non-0, dist key, id) changes the preimage (inner hashes under an explicit collision-freedom hypothesis), joint injectivity under fixed key/seed lengths with the seed/id ambiguity exhibited otherwise, independence of node listing order (sorting of a permutation with distinct indices), chain hash ignores membership, decode rejects a mismatching embedded hash. Tied to the code by hashing the model's preimage (python hashlib) and comparing with the real Hash() on generated groups over all 5 schemes, plus equality across TOML/protobuf/JSON paths and inequality under perturbation on the real code.",
    note="Lean kernel + standard axioms; SHA-256/BLAKE2b collision freedom is a hypothesis; go2lean layout extractor; python hashlib; kyber point encodings opaque.",
